@@ -84,6 +84,19 @@ theorem quoted_escape_old_refuted :
     ∧ (parseSelSet lexSpec "[h=\"a\\\"b\"]".toList).map (SelSet.print false) = some "[h=\"a\\\"b\"]".toList := by
   decide +kernel
 
+/-- The space before an attribute modifier is written in every output style (`Attribute::write_to`
+uses `add_char(' ')`, the model's `Attr.print` has no style parameter): without it `[h=abc i]`
+would read back as the value `abci` (seeded change C25-2). -/
+theorem attr_modifier_keeps_space (a : Attr) (m : Char) (h : a.modifier = some m) :
+    a.print = '[' :: a.name ++ a.op ++ printCssString a.val a.quotes ++ [' ', m, ']'] := by
+  simp [Attr.print, h]
+
+/-- the compressed print of `[data-x=abc i]` parses back to the same selector list -/
+theorem attr_modifier_compressed_roundtrip :
+    (parseSelSet lexSpec "a[data-x=abc i].c".toList).map (SelSet.print true) = some "a.c[data-x=abc i]".toList
+    ∧ (parseSelSet lexSpec "a.c[data-x=abc i]".toList).map (SelSet.print false) = some "a.c[data-x=abc i]".toList := by
+  decide +kernel
+
 /-- the code today is the specification model -/
 theorem asis_is_spec : lexAsis = lexSpec := rfl
 
